@@ -19,7 +19,7 @@ CLAIMS = {
          'body is symbolically executed from /repo\'s source against sidecar contracts; loop invariants (edge list names present, pairwise distinct connections; '
          'per-node in/out degree; weight multiset via an arbitrary statistic F; diagonal; symmetry; out-strength; eff=0 => identity; argument untouched) and the '
          'postconditions of the statement (incl. latticiser re-indexing L1 and degrees under the caller\'s numbering) are discharged by z3 for all n, all budgets, '
-         'all random draws. randomizer_bin_und: its rewiring loop is proved as a fragment (for every entry state with a symmetric 0/1 working matrix, INF diagonal and an edge list of present pairwise different connections: every pass keeps every node degree, and the entries still ahead of the loop counter keep naming present, pairwise different connections, which is what makes the next swap legitimate); the complement / full-node preprocessing and its undoing are bounded only (all graphs n<=5, both dtypes). The same contracts are also woven into the real '
+         'all random draws. randomizer_bin_und: its rewiring loop is proved as a fragment (for every entry state with a symmetric 0/1 working matrix, INF diagonal and an edge list of present pairwise different connections: every pass keeps every node degree, and the entries still ahead of the loop counter keep naming present, pairwise different connections, which is what makes the next swap legitimate), and the whole function is proved for the executions that take neither the complement nor the full-node branch (path assumption, stated in the evidence; the fragment is used modularly and its entry conditions are obligations of that contract); the complement / full-node preprocessing and its undoing are bounded only (all graphs n<=5, both dtypes). The same contracts are also woven into the real '
          'functions and run over all graphs n=4 / sampled n=5 with every random-choice script to a stated depth (bounded cross-check, supplies replay inputs).',
          PROOF_NOTE + ' Abstracted blocks (havoc of their write set, syntactic frame obligation): connectivity test of the *_connected variants, default-D construction of the latticisers.',
          'contract-based deductive verification: own AST->VC generator (pyvc) + z3 on the real source; runtime-woven contracts on exhaustive small scopes as bounded stand-in', '5/C01'),
